@@ -359,6 +359,9 @@ class WrappedSocket:
                 raise OSError(e.args[0], str(e)) from e
 
     def sendall(self, data: bytes) -> None:
+        # Count in bytes: a buffer with wider items (array.array("H"),
+        # memoryview.cast("I")) has fewer items than bytes to send.
+        data = memoryview(data).cast("B")  # type: ignore[assignment]
         total_sent = 0
         while total_sent < len(data):
             sent = self._send_until_done(
